@@ -2,6 +2,7 @@ package main
 
 import (
 	"fmt"
+	"go/ast"
 	"go/constant"
 	"go/token"
 	"go/types"
@@ -33,6 +34,9 @@ func (g *Gen) run() {
 	}
 	g.classifyAllocs()
 	g.findLoops()
+	if g.spec != nil && strings.HasPrefix(g.spec.Name, "init@var:") {
+		g.initVarSlice(strings.TrimPrefix(g.spec.Name, "init@var:"))
+	}
 	if g.spec != nil {
 		for _, fc := range g.spec.FieldCover {
 			g.fieldCover(fc)
@@ -767,6 +771,13 @@ func (g *Gen) execBlock(b *ssa.BasicBlock, st *State) {
 	for _, in := range b.Instrs {
 		if p := in.Pos(); p.IsValid() {
 			g.curPos = p
+		}
+		if g.only != nil && !g.only[in] {
+			switch in.(type) {
+			case *ssa.Return, *ssa.If, *ssa.Jump:
+			default:
+				continue // init@var: slice: not part of the variable's initializer
+			}
 		}
 		g.execInstr(in, st)
 	}
@@ -1767,7 +1778,8 @@ func (g *Gen) resolveMapName(s string) string {
 func sortStrings(xs []string) []string { sort.Strings(xs); return xs }
 
 // rangeIndexLoop recognises the header of go/ssa's range-over-slice/array lowering:
-//   t = *rangeindex ; t' = t + 1 ; *rangeindex = t' ; c = t' < len ; if c ...
+//
+//	t = *rangeindex ; t' = t + 1 ; *rangeindex = t' ; c = t' < len ; if c ...
 func rangeIndexLoop(h *ssa.BasicBlock) (*ssa.Alloc, ssa.Value) {
 	if h.Comment != "rangeindex.loop" || len(h.Instrs) < 5 {
 		return nil, nil
@@ -2016,4 +2028,87 @@ func (g *Gen) fieldCover(fc *FieldCoverSpec) {
 			g.errorf("%s_all: excepted field %s does not exist in %s (contract drift)", kind, name, fc.Target)
 		}
 	}
+}
+
+// initVarSlice restricts the symbolic execution of a package initializer to the instructions that compute the
+// initial value of one package-level variable: the instructions positioned inside its declaration plus everything
+// they (transitively) use. The init guard is taken as "not yet initialised".
+func (g *Gen) initVarSlice(name string) {
+	var lo, hi token.Pos
+	if g.fn.Pkg != nil {
+		if sp := g.W.pkgSyntax(g.fn.Pkg.Pkg.Path()); sp != nil {
+			for _, f := range sp {
+				for _, d := range f.Decls {
+					gd, ok := d.(*ast.GenDecl)
+					if !ok || gd.Tok != token.VAR {
+						continue
+					}
+					for _, s := range gd.Specs {
+						vs := s.(*ast.ValueSpec)
+						for _, n := range vs.Names {
+							if n.Name == name {
+								lo, hi = vs.Pos(), vs.End()
+							}
+						}
+					}
+				}
+			}
+		}
+	}
+	g.only = map[ssa.Instruction]bool{}
+	if !lo.IsValid() {
+		g.errorf("contract drift: package variable %s not found", name)
+		return
+	}
+	var work []ssa.Instruction
+	add := func(in ssa.Instruction) {
+		if !g.only[in] {
+			g.only[in] = true
+			work = append(work, in)
+		}
+	}
+	for _, b := range g.fn.Blocks {
+		for _, in := range b.Instrs {
+			if p := in.Pos(); p.IsValid() && lo <= p && p <= hi {
+				add(in)
+			}
+		}
+	}
+	if len(work) == 0 {
+		g.errorf("contract drift: no initializer instructions found for package variable %s", name)
+	}
+	for len(work) > 0 {
+		in := work[len(work)-1]
+		work = work[:len(work)-1]
+		for _, op := range in.Operands(nil) {
+			if op == nil || *op == nil {
+				continue
+			}
+			if def, ok := (*op).(ssa.Instruction); ok && def.Parent() == g.fn {
+				add(def)
+			}
+		}
+	}
+	// branch conditions outside the slice: the init guard is "not yet initialised", anything else is arbitrary
+	for _, b := range g.fn.Blocks {
+		for _, in := range b.Instrs {
+			iff, ok := in.(*ssa.If)
+			if !ok {
+				continue
+			}
+			def, isInstr := iff.Cond.(ssa.Instruction)
+			if !isInstr || g.only[def] {
+				continue
+			}
+			t := g.fresh("br")
+			g.declare(t, "Bool")
+			if u, ok := iff.Cond.(*ssa.UnOp); ok {
+				if gl, ok := u.X.(*ssa.Global); ok && gl.Name() == "init$guard" {
+					g.assume("true", sNot(t))
+				}
+			}
+			g.vals[iff.Cond] = Val{T: t, S: sBool, G: iff.Cond.Type()}
+		}
+	}
+	g.note("package initializer of " + g.fn.Pkg.Pkg.Path() + " restricted to the initializer of variable " + name + " (the rest of the initializer is not executed)")
 }
